@@ -70,35 +70,35 @@ type ServerStep struct {
 	BodySize   int  `json:"body_size,omitempty"`
 	Chunks     int  `json:"chunks,omitempty"`
 	ChunkDelay D    `json:"chunk_delay,omitempty"`
-	Code       int  `json:"code,omitempty"`    // gRPC status code (0 = OK)
+	Code       int  `json:"code,omitempty"`      // gRPC status code (0 = OK)
 	PlainErr   bool `json:"plain_err,omitempty"` // gRPC: a non-status error
 	Wrapped    bool `json:"wrapped,omitempty"`   // gRPC: the status error arrives wrapped (fmt.Errorf with %w), as a handler or an inner interceptor annotating its errors returns it
 }
 
 type AdapterSpec struct {
-	Proto      string          `json:"proto"` // http | grpc-client | grpc-server | grpc-tap
-	ViaRequest bool            `json:"via_request,omitempty"`
-	ViaClient  bool            `json:"via_client,omitempty"`
-	Method     string          `json:"method,omitempty"`
-	Body       int             `json:"body,omitempty"`
-	BodySize   int             `json:"body_size,omitempty"`
-	ReqCtx     int             `json:"req_ctx,omitempty"`
-	ExecCtx    int             `json:"exec_ctx,omitempty"`
-	CtxD       D               `json:"ctx_d,omitempty"`
-	Policies   []AdapterPolicy `json:"policies"`
-	Server     []ServerStep    `json:"server"`
-	UploadDelay D              `json:"upload_delay,omitempty"` // the transport takes this long per piece of the request body (slow upload)
-	CancelAt   D               `json:"cancel_at,omitempty"` // cancel the cancellable caller context this long after the call started (0 = never)
-	Repeat     int             `json:"repeat,omitempty"`
+	Proto       string          `json:"proto"` // http | grpc-client | grpc-server | grpc-tap
+	ViaRequest  bool            `json:"via_request,omitempty"`
+	ViaClient   bool            `json:"via_client,omitempty"`
+	Method      string          `json:"method,omitempty"`
+	Body        int             `json:"body,omitempty"`
+	BodySize    int             `json:"body_size,omitempty"`
+	ReqCtx      int             `json:"req_ctx,omitempty"`
+	ExecCtx     int             `json:"exec_ctx,omitempty"`
+	CtxD        D               `json:"ctx_d,omitempty"`
+	Policies    []AdapterPolicy `json:"policies"`
+	Server      []ServerStep    `json:"server"`
+	UploadDelay D               `json:"upload_delay,omitempty"` // the transport takes this long per piece of the request body (slow upload)
+	CancelAt    D               `json:"cancel_at,omitempty"`    // cancel the cancellable caller context this long after the call started (0 = never)
+	Repeat      int             `json:"repeat,omitempty"`
 }
 
 // Adapter event sub kinds (Event.Kind == EvAdapter, L = sub kind).
 const (
-	AdAttempt   = iota + 1 // A = attempt index, B = bit mask of fidelity problems, Str = details
-	AdAttemptEnd           // transport/invoker returns: A = index, Err
-	AdReturn               // call returned to the caller: Val = status/reply, Err
-	AdBodyRead             // caller read the returned body: A = bytes read, B = expected bytes, Err
-	AdBodyClose            // Close called on response body A (attempt index)
+	AdAttempt    = iota + 1 // A = attempt index, B = bit mask of fidelity problems, Str = details
+	AdAttemptEnd            // transport/invoker returns: A = index, Err
+	AdReturn                // call returned to the caller: Val = status/reply, Err
+	AdBodyRead              // caller read the returned body: A = bytes read, B = expected bytes, Err
+	AdBodyClose             // Close called on response body A (attempt index)
 	AdCallerCancel
 )
 
